@@ -2,25 +2,25 @@ import AnyDB.Props.C03Comp
 namespace AnyDB.C03c
 open AnyDB VecM VecM.V C07
 
-theorem pagesFlush_frame (s : V) : (s.pagesFlush).1.stamp = s.stamp ∧ (s.pagesFlush).1.changes = s.changes ∧ (s.pagesFlush).1.keep = s.keep := by
+theorem pagesFlush_frame (s : V) : (s.pagesFlush).1.stamp = s.stamp ∧ (s.pagesFlush).1.changes = s.changes ∧ (s.pagesFlush).1.keep = s.keep ∧ (s.pagesFlush).1.kind = s.kind := by
   unfold pagesFlush
   split
-  · exact ⟨rfl, rfl, rfl⟩
-  · split <;> exact ⟨rfl, rfl, rfl⟩
+  · exact ⟨rfl, rfl, rfl, rfl⟩
+  · split <;> exact ⟨rfl, rfl, rfl, rfl⟩
 
-theorem hdr_frame (s : V) : s.writeHeaderIfNeeded.stamp = s.stamp ∧ s.writeHeaderIfNeeded.changes = s.changes ∧ s.writeHeaderIfNeeded.keep = s.keep := by
-  unfold writeHeaderIfNeeded; split <;> exact ⟨rfl, rfl, rfl⟩
+theorem hdr_frame (s : V) : s.writeHeaderIfNeeded.stamp = s.stamp ∧ s.writeHeaderIfNeeded.changes = s.changes ∧ s.writeHeaderIfNeeded.keep = s.keep ∧ s.writeHeaderIfNeeded.kind = s.kind := by
+  unfold writeHeaderIfNeeded; split <;> exact ⟨rfl, rfl, rfl, rfl⟩
 
 /-- a compressed `write()` touches neither the stamp nor the change records -/
 theorem writeComp_frame (s : V) (cs : List Nat) :
-    (s.writeComp cs).1.stamp = s.stamp ∧ (s.writeComp cs).1.changes = s.changes ∧ (s.writeComp cs).1.keep = s.keep := by
-  obtain ⟨a1, a2, a3⟩ := hdr_frame s
+    (s.writeComp cs).1.stamp = s.stamp ∧ (s.writeComp cs).1.changes = s.changes ∧ (s.writeComp cs).1.keep = s.keep ∧ (s.writeComp cs).1.kind = s.kind := by
+  obtain ⟨a1, a2, a3, a4⟩ := hdr_frame s
   have hf := fun t => pagesFlush_frame t
   unfold writeComp
   simp only []
   repeat' split
   all_goals first
-    | exact ⟨a1, a2, a3⟩
-    | exact ⟨(hf _).1.trans a1, (hf _).2.1.trans a2, (hf _).2.2.trans a3⟩
+    | exact ⟨a1, a2, a3, a4⟩
+    | exact ⟨(hf _).1.trans a1, (hf _).2.1.trans a2, (hf _).2.2.1.trans a3, (hf _).2.2.2.trans a4⟩
 
 end AnyDB.C03c
